@@ -98,6 +98,24 @@ fn sparse_symmetric(rng: &mut Rng, n: usize) -> Vec<Vec<f64>> {
     (0..n).map(|i| (0..n).map(|j| a[perm[i]][perm[j]]).collect()).collect()
 }
 
+/// tridiagonal Toeplitz real part: bit-identical diagonal entries and one off-diagonal value of either
+/// sign (e.g. the Laplacian [[2,-1],[-1,2]]); eigenvalues d + 2c cos(k pi/(n+1)) are distinct.  The
+/// rotation angle of the first Jacobi sweep is then exactly +-0 in the real part while its
+/// derivative parts are not.
+fn equal_diagonal(rng: &mut Rng, n: usize) -> Vec<Vec<f64>> {
+    let d = *rng.choose(&[2.0, -1.5, 0.0, 3.25]);
+    let c = rng.sign() * *rng.choose(&[1.0, 0.75, 1.5]);
+    let mut a = vec![vec![0.0; n]; n];
+    for i in 0..n {
+        a[i][i] = d;
+        if i + 1 < n {
+            a[i][i + 1] = c;
+            a[i + 1][i] = c;
+        }
+    }
+    a
+}
+
 /// pivoting path of partial pivoting on the real part (harness-side classification)
 fn pivot_path(a: &[Vec<f64>]) -> (usize, Vec<usize>) {
     let n = a.len();
@@ -497,16 +515,19 @@ fn check_crate<T: Jetty<F = f64> + Copy>(tname: &str, ctx: &Ctx, shard: usize, n
                 d
             } else if ci % 6 == 2 && n >= 3 {
                 sparse_symmetric(&mut rng, n)
+            } else if ci % 6 == 4 && n >= 2 {
+                equal_diagonal(&mut rng, n)
             } else {
                 symmetric(&mut rng, n)
             };
             let sparse = !hostile && ci % 6 == 2 && n >= 3;
+            let eqdiag = !hostile && ci % 6 == 4 && n >= 2;
             let escale = (2.0f64).powi(*rng.choose(&[0, 0, 0, -60, 40]));
             let sre: Vec<Vec<f64>> = sre.iter().map(|r| r.iter().map(|v| v * escale).collect()).collect();
             let s: Mats<T> = make_matrix(&mut rng, &sre, &b, &shape, true, 0.5 * escale);
             let sarr = Array2::from_shape_fn((n, n), |(i, j)| s.vals[i][j]);
             let ecase = || json!({"type": tname, "n": n, "hostile_reducible_real_part": hostile, "A_parts": s.vals.iter().map(|r| r.iter().map(|x| floats(&parts(x, &shape))).collect::<Vec<_>>()).collect::<Vec<_>>()});
-            acc.observe(&format!("jacobi|{}|n{}|{}{}", tname, n, if hostile { "reducible-real-part" } else if sparse { "irreducible-with-zero-entries" } else { "dense" }, if escale != 1.0 { "-scaled" } else { "" }), n >= 2);
+            acc.observe(&format!("jacobi|{}|n{}|{}{}", tname, n, if hostile { "reducible-real-part" } else if sparse { "irreducible-with-zero-entries" } else if eqdiag { "equal-diagonal-tridiagonal" } else { "dense" }, if escale != 1.0 { "-scaled" } else { "" }), n >= 2);
             match guarded(|| jacobi_eigenvalue(sarr.clone(), 200)) {
                 Ok((lam, v)) => {
                     let lj: Option<Vec<J>> = lam.iter().map(|x| to_jet(x, &b, &shape)).collect();
@@ -656,10 +677,13 @@ fn check_nalgebra<T: Jetty<F = f64> + RealField>(tname: &str, ctx: &Ctx, shard: 
         // symmetric eigen / cholesky
         if ci % 2 == 0 && n >= 1 {
             let sparse = ci % 6 == 2 && n >= 3;
-            let sre = if sparse { sparse_symmetric(&mut rng, n) } else { symmetric(&mut rng, n) };
+            // equal diagonal: only the 2x2 case has no zero off-diagonal real parts (for n >= 3 a
+            // tridiagonal matrix belongs to the zero-entry class of finding K6, covered by `sparse`)
+            let eqdiag = !sparse && ci % 5 == 3 && n == 2;
+            let sre = if sparse { sparse_symmetric(&mut rng, n) } else if eqdiag { equal_diagonal(&mut rng, n) } else { symmetric(&mut rng, n) };
             let s: Mats<T> = make_matrix(&mut rng, &sre, &b, &shape, true, 0.5);
             let sm = DMatrix::from_fn(n, n, |i, j| s.vals[i][j].clone());
-            acc.observe(&format!("nalgebra-symmetric_eigen|{}|n{}|{}", tname, n, if sparse { "irreducible-with-zero-entries" } else { "dense" }), n >= 2);
+            acc.observe(&format!("nalgebra-symmetric_eigen|{}|n{}|{}", tname, n, if sparse { "irreducible-with-zero-entries" } else if eqdiag { "equal-diagonal-tridiagonal" } else { "dense" }), n >= 2);
             let ecase = || json!({"type": tname, "shape": shape.name(), "n": n, "A_parts": s.vals.iter().map(|r| r.iter().map(|x| floats(&parts(x, &shape))).collect::<Vec<_>>()).collect::<Vec<_>>()});
             match guarded(|| sm.clone().symmetric_eigen()) {
                 Ok(e) => {
